@@ -34,7 +34,7 @@ PROPERTY = "C19"
 LEVEL = "fault_enumeration"
 SWEEP = True
 ABSTRACT_WIDTH = 3
-N_RUNS = {"quick": 40000, "thorough": 80000}
+N_RUNS = {"quick": 40000, "thorough": 64000}
 RULE = ("each run draws 1-3 plots, the options of the chain (MakeFilename variants: plain, dirname, "
         "formatted dirname, prefix, suffix, stacked prefix and suffix, prefix from the context, a "
         "second non-overwriting and a second overwriting MakeFilename; each Write plain / "
@@ -61,7 +61,9 @@ RULE = ("each run draws 1-3 plots, the options of the chain (MakeFilename varian
         " same pipeline object re-used for the whole history with RenderLaTeX's default"
         " environment, template changes that only touch the final line terminator, image format"
         " jpeg, failing converters, 100 clock ticks per second, both orders of Write and"
-        " group_plots in the grouped variant, and taint tracking past the known finding.")
+        " group_plots in the grouped variant, and taint tracking past the known finding."
+        " Also: plot names ending in t, e or x, a dirname with a .. component, five and six"
+        " plots, a per-plot ToCSV option that comes and goes.")
 REAL = ["lena.flow.GroupBy, lena.flow.group_plots, lena.flow.MapGroup (grouped variant)", "lena.output.ToCSV", "lena.output.MakeFilename", "lena.output.Write", "lena.output.RenderLaTeX",
         "lena.output.LaTeXToPDF", "lena.output.PDFToPNG", "lena.core.Sequence", "lena.structures.histogram",
         "jinja2 (template loading through a FunctionLoader on the simulated disk, rendering)"]
@@ -280,6 +282,8 @@ class Tap(object):
 def gen_scenario(tape):
     sc = Spec()
     sc.nplots = 1 + tape.draw(3, "nplots")
+    if tape.chance(1, 12, "many-plots"):
+        sc.nplots = 5 + tape.draw(2, "nplots-many")
     sc.mkf = tape.choice(MKF, "makefilename")
     # plot names p0, p1, ... or names that end in a letter of "tex" (p0x, p1x, ...)
     NAME_TAIL[0] = tape.choice(["", "", "x", "e", "t"], "name-ending")
@@ -291,6 +295,8 @@ def gen_scenario(tape):
     sc.imgfmt = tape.choice(["png", "png", "jpeg"], "image-format")
     # MakeFilename in front of ToCSV (the value has no context.output yet) or behind it
     sc.mkf_first = tape.chance(1, 4, "makefilename-before-tocsv")
+    sc.dup_override = (sc.mkf in ("plain", "dir", "dirfmt", "prefix", "suffix", "presuf") and not sc.mkf_first
+                       and tape.chance(1, 4, "per-plot-tocsv-option"))
     sc.clock = tape.weighted([(12, "normal"), (1, "tie"), (1, "skew")], "clock")
     sc.fail = tape.chance(1, 16, "converter-failure-mode")
     sc.step = 1 + tape.draw(3, "tick-step")
@@ -371,6 +377,9 @@ class World(object):
                 ctx["output"] = {"fileext": ""}
             elif self.sc.mkf == "dir-optional" and p % 2 == 0:
                 ctx["extra"] = {"dir": "a"}
+            if getattr(self.sc, "dup_override", False) and p == 0 and self.data_version[0] % 2:
+                # an option of ToCSV given for this plot only (and only for some versions of its data)
+                ctx.setdefault("output", {})["duplicate_last_bin"] = False
             vals.append((h, ctx))
         return vals
 
